@@ -62,7 +62,7 @@ LEVEL = {"quick": "fault_enumeration", "thorough": "fault_enumeration"}
 BULK = ("update", "supdate", "ior", "iand", "isub", "ixor")
 READONLY = ("get", "getd", "getitem", "in", "has_key", "minKey", "maxKey",
             "range", "len", "iter", "keys", "items", "values", "isdisjoint",
-            "mod", "ctor", "resolve")
+            "mod", "ctor", "ctork", "resolve")
 
 
 def plan(rng, tier):
@@ -110,7 +110,7 @@ def plan(rng, tier):
         op = twin._modfunc(rng, g, dom, kind)
     elif r < 0.9:
         ks = g.keylist(0, 8)
-        op = ["ctor", ks, rng.choice(["list", "sorted", "gen"])]
+        op = ["ctork", ks, rng.choice(["list", "sorted", "gen"])]
     else:
         def st():
             return sorted(set(g.keylist(0, 5)))
@@ -189,7 +189,7 @@ def _do(plan, dom, c, live):
     if name == "mod":
         from . import twin
         return twin._apply_mod(c, op, dom, impl)
-    if name == "ctor":
+    if name == "ctork":
         ks = [dom.key(k) for k in op[1]]
         if op[2] == "sorted":
             ks = sorted(ks, key=dom.sortkey)
@@ -337,7 +337,7 @@ def _one(plan, dom, cfg, ctx, n, ncmp, L0, L1, baseline, tracked, h, base):
         extra = set((dom.pkid(ops.K(dom, kk)), dom.pvid(ops.V(dom, vv)))
                     for kk, vv in op[1])
     verdict = _contents_verdict(op, L0, L1, got, mapping, extra)
-    if opn in READONLY and verdict != "old" and opn != "ctor":
+    if opn in READONLY and verdict != "old" and opn != "ctork":
         verdict = None if not ops.same_value(got, L0) else "old"
     if verdict is None:
         raise Violation(
